@@ -66,6 +66,8 @@ def parse(out):
         name = sec.split("...")[0].strip().split("::")[-1]
         m = re.search(r"VERIFICATION:- (\w+)", sec)
         status = m.group(1) if m else "ERROR"
+        if re.search(r"CBMC failed|run out of memory|out of memory", sec):
+            status = "ERROR"
         failed = re.findall(r"^Failed Checks: (.*)$", sec, flags=re.M)
         cov = re.search(r"\*\* (\d+) of (\d+) cover properties satisfied", sec)
         tm = re.search(r"Verification Time: ([0-9.]+)s", sec)
@@ -132,6 +134,9 @@ def run(prop, tier, seed, spec):
         harnesses = list(spec["harnesses"].get("quick", []))
         if tier == "thorough":
             harnesses += spec["harnesses"].get("thorough", [])
+        if not harnesses:
+            part["coverage"] = {"harnesses": 0, "note": "no Kani harness in this tier (see thorough)"}
+            return part
         target_dir = os.path.join(CACHE, "kani-target-" + prop)
         timeout = spec.get("timeout_s", 1500)
         rc, out, wall = run_kani(repo_k, harnesses, target_dir, timeout)
